@@ -81,9 +81,9 @@ def build(case):
     C2.iotaVal = 0.0 if case['iota'] != 0.0 else 0.7
     C2.R0 = 7.0 if case.get('R0') is None else 2.0 * case['R0']
     ParallelGradient(bs, eta, lay, C2, order=case['order'])
-    # a rotational transform that depends on the radius (a Constants object whose `iota` is overridden), on single-block layouts
-    # (the table of theta positions is indexed with the radial index of the caller, observation O2)
-    rdep = case['iota'] != 0.0 and list(case['nprocs']) == [1] and case['sub'] % 3 == 0
+    # a rotational transform that depends on the radius (a Constants object whose `iota` is overridden), on every kind of radial block
+    # (finding F18, repaired: the table of theta positions covered all radii but was read with the local radial index)
+    rdep = case['iota'] != 0.0 and case['sub'] % 3 == 0
 
     def make_iota(i0):
         return (lambda r=C.rp: i0 * (1.0 + 0.15 * np.asarray(r, dtype=float))) if rdep else None
@@ -446,8 +446,6 @@ def run(chk):
     chk.notes['max moment residual / (eps * Σ|s^i c|)'] = round(stats['moment'], 3)
     chk.notes['tolerance_factor'] = FACTOR
     chk.notes['mechanism_disagreements (stencil / loop bounds)'] = stats['mech_disagree']
-    chk.notes['latent'] = ('ParallelGradient._thetaVals is indexed by the *global* r index while parallel_gradient is called with the '
-                           'local one; unobservable because Constants.iota does not depend on r')
     chk.assumptions = [
         'contract: FD weights are those returned by numpy.linalg.solve in the real object; their exact moment residual is bounded by 4096 eps Σ|s^i c|',
         'contract: theta-spline coefficients from the real SplineInterpolator1D (interpolation = C08); bz and the % (2 pi) reduction recomputed '
